@@ -182,7 +182,10 @@ def _case(draw):
                 "member": draw(st.sampled_from(["box.mbox", "md", "run.sh", "m.pyg", "sub/box.mbox", "box.mbox|/MBOX-MESSAGE/1",
                                                 "md|/MAILDIR-MESSAGE/1", "run.sh?arg", "m.pyg?x"])),
                 "cwd": draw(st.sampled_from(["cwdA", "cwdB"]))}
-    c = {"mode": "twin", "tree": draw(_tree()), "forms": draw(st.lists(st.sampled_from(FORMS), min_size=2, max_size=3, unique=True))}
+    c = {"mode": "twin", "tree": draw(_tree()), "forms": draw(st.lists(st.sampled_from(FORMS), min_size=2, max_size=3, unique=True)),
+         # the administrator's pattern for archives: the shipped one, or one that says the same about whole selectors
+         # (which begin with a slash): anchored at the start, or spelling out the last component
+         "pattern": draw(st.sampled_from([None, None, r"(?s)^/.*\.zip$", r"/[^/]*\.zip$"]))}
     if draw(st.integers(0, 3)) == 0:
         # the archive is then replaced by another revision that keeps its modification time (cp -p, rsync -t, a restore)
         c["tree2"] = draw(_tree())
@@ -274,7 +277,11 @@ def _check_twin(case, ctx):
     root = os.path.join(base, "root")
     os.mkdir(root)
     try:
-        cfg = drive.make_config(root, "full", **{"handlers.dir.DirHandler::cachetime": "0"})
+        over = {"handlers.dir.DirHandler::cachetime": "0"}
+        if case.get("pattern"):
+            over["handlers.ZIP.ZIPHandler::pattern"] = case["pattern"]
+            ctx.label("archive-pattern-on-whole-selector")
+        cfg = drive.make_config(root, "full", **over)
         _build_twins(case["tree"], root)
         out = _compare(case["tree"], case, cfg, ctx, "")
         if not out and case.get("tree2"):
